@@ -33,6 +33,12 @@ class Monitor:
         self.ambient = None
         self.last_move = None
         self.last_rate = None
+        self.prev_call = None       # the monitored call before the current one (history witness)
+        self.this_call = None
+        self.imported_under = None
+
+    def _enter(self, fn, args):
+        self.prev_call, self.this_call = self.this_call, [fn, list(args)]
 
     def post_move(self, time, rate, accel, jerk, accum, result):
         ctx = self.ctx
@@ -44,6 +50,7 @@ class Monitor:
             ctx.count("skipped:outside domain")
             return True
         ctx.count("monitor:move_dist_t3 evaluated")
+        self._enter("move_dist_t3", [time, rate, accel, jerk, accum])
         want = S.t3_expected(time, rate, accel, jerk, accum)
         self.last_move = want
         ok = (isinstance(result, tuple) and len(result) == 2 and _ints(*result)
@@ -51,7 +58,8 @@ class Monitor:
         if not ok:
             ctx.violation("move_dist_t3 != recurrence", {
                 "fn": "move_dist_t3", "args": [time, rate, accel, jerk, accum],
-                "ambient": self.ambient, "got": result, "expected": list(want)})
+                "ambient": self.ambient, "previous_call": self.prev_call, "imported_under": self.imported_under,
+                "got": result, "expected": list(want)})
         return True
 
     def post_rate(self, time, rate, accel, jerk, result):
@@ -63,12 +71,14 @@ class Monitor:
             ctx.count("skipped:outside domain")
             return True
         ctx.count("monitor:rate_t3 evaluated")
+        self._enter("rate_t3", [time, rate, accel, jerk])
         want = S.t3_rate(rate, accel, jerk, time)
         self.last_rate = want
         if type(result) is not int or result != want:
             ctx.violation("rate_t3 != recurrence", {
                 "fn": "rate_t3", "args": [time, rate, accel, jerk],
-                "ambient": self.ambient, "got": result, "expected": want})
+                "ambient": self.ambient, "previous_call": self.prev_call, "imported_under": self.imported_under,
+                "got": result, "expected": want})
         return True
 
 
@@ -97,6 +107,76 @@ def one_case(ctx, mon, time, rate, accel, jerk, accum, ambient):
     except Exception as exc:
         ctx.violation("exception", {"fn": "move_dist_t3", "args": [time, rate, accel, jerk, accum],
                                     "ambient": mon.ambient, "exception": repr(exc)})
+
+
+def related_calls(ctx, mon, rng, time, rate, accel, jerk, accum):
+    """History: the next calls share some arguments with the previous one and differ in others
+    (the second axis of the same segment, the same move with another start rate / duration /
+    accumulator, arguments that differ by one). Every call is decided by the contracts."""
+    from plotink import ebb_calc
+    for _ in range(rng.randint(1, 3)):
+        c = rng.randrange(7)
+        t2, r2, a2, j2, acc2 = time, rate, accel, jerk, accum
+        if c == 0:
+            r2 = rng.choice((-rate // 2, rate + 1, rate - 1, -rate, rng.randint(-10 ** 6, 10 ** 6), 0))
+        elif c == 1:
+            t2 = rng.choice((1, 2, 3, max(1, time - 1), max(1, time // 2)))
+        elif c == 2:
+            acc2 = rng.choice(("clear", 0, M - 1, rng.randrange(M)))
+        elif c == 3:
+            j2 = rng.choice((jerk + 1, jerk - 1, -jerk, 0))
+        elif c == 4:
+            a2 = rng.choice((accel + 1, accel - 1, -accel, 0))
+        elif c == 5:                       # -1 <-> -2 (equal hashes in CPython), 0 <-> -0
+            r2, a2, j2 = [(-2 if v == -1 else -1 if v == -2 else v) for v in (rate, accel, jerk)]
+            if (r2, a2, j2) == (rate, accel, jerk):
+                j2 = rng.choice((-1, -2))
+        else:
+            r2 = -rate // 2 if rate else 12345
+            acc2 = "clear"
+        if abs(r2) > S.RMAX or not S.t3_in_domain(r2, a2, j2, t2):
+            ctx.count("history:related call outside the domain (skipped)")
+            continue
+        ctx.case(["history: related arguments after a previous call", "history:variant %d" % c],
+                 ("rel", t2, r2, a2, j2, acc2, time, rate, accel, jerk))
+        try:
+            which = rng.randrange(3)
+            if which == 0:
+                ebb_calc.rate_t3(t2, r2, a2, j2)
+            elif which == 1:
+                ebb_calc.move_dist_t3(t2, r2, a2, j2, acc2)
+            else:
+                ebb_calc.rate_t3(t2, r2, a2, j2)
+                ebb_calc.move_dist_t3(t2, r2, a2, j2, acc2)
+        except Exception as exc:
+            ctx.violation("exception", {"fn": "move_dist_t3", "args": [t2, r2, a2, j2, acc2],
+                                        "ambient": mon.ambient, "previous_call": mon.prev_call,
+                                        "exception": repr(exc)})
+        time, rate, accel, jerk, accum = t2, r2, a2, j2, acc2
+
+
+def import_time_phase(ctx, n_per_setting):
+    rng = ctx.rng
+    for setting in G.IMPORT_SETTINGS:
+        contracts.uninstall_all()
+        G.reload_ebb_calc(setting)
+        mon = install(ctx)
+        mon.imported_under = list(setting)
+        done = 0
+        while done < n_per_setting and ctx.alive():
+            case = G.gen_t3_case(rng)
+            if case is None:
+                continue
+            classes, time, rate, accel, jerk, accum = case
+            if rng.random() < 0.5:
+                accum = "clear"
+            ambient = G.pick_ambient(rng) if rng.random() < 0.5 else G.Ambient("dps", 15)
+            ctx.case(["module imported under low precision", "imported under %s=%d" % setting],
+                     (time, rate, accel, jerk, accum, "import", setting, ambient.kind, ambient.value))
+            one_case(ctx, mon, time, rate, accel, jerk, accum, ambient)
+            done += 1
+    contracts.uninstall_all()
+    G.reload_ebb_calc(None)
 
 
 def self_check(ctx, time, rate, accel, jerk, accum):
@@ -133,10 +213,14 @@ def run(ctx):
         ctx.sample({"T": time, "rate": rate, "accel": accel, "jerk": jerk, "accum": accum,
                     "ambient": ambient.describe()}, tag=classes[0])
         one_case(ctx, mon, time, rate, accel, jerk, accum, ambient)
+        if rng.random() < 0.3:
+            related_calls(ctx, mon, rng, time, rate, accel, jerk, accum)
         if time <= 3000 and done % 4 == 0:
             self_check(ctx, time, rate, accel, jerk, accum)
         done += 1
-    for cls in NEEDED:
+    import_time_phase(ctx, ctx.budget(800, 6000))
+    mon = install(ctx)
+    for cls in NEEDED + ["history: related arguments after a previous call", "module imported under low precision"]:
         ctx.need(cls, 40)
     ctx.need("monitor:move_dist_t3 evaluated", 30_000)
     ctx.need("monitor:rate_t3 evaluated", 30_000)
@@ -146,8 +230,19 @@ def run(ctx):
 
 
 def replay(ctx, rec):
-    mon = install(ctx)
+    from plotink import ebb_calc
     w = rec["witness"]
+    if w.get("imported_under"):
+        G.reload_ebb_calc(tuple(w["imported_under"]))
+    mon = install(ctx)
+    mon.imported_under = w.get("imported_under")
+    if w.get("previous_call"):
+        fn, a = w["previous_call"]
+        getattr(ebb_calc, fn)(*a)          # the history the witness depends on
+        ctx.case(["replay"], None)
+        getattr(ebb_calc, w["fn"])(*w["args"])
+        contracts.uninstall_all()
+        return
     args = w["args"]
     if w["fn"] == "rate_t3":
         args = args + ["clear"]
